@@ -95,7 +95,9 @@ func xarcCase(o *out.W, i int, r *rng.R) {
 			prev = [2]float64{qd[k+1], qd[k+2]}
 			k += 4
 		case canvas.ArcToCmd:
-			same := qd[k+1] == d[5] && qd[k+2] == d[6] && qd[k+3] == d[7]
+			// ArcTo rescales radii that come out a rounding error too small for the recomputed end points (by 1 + a few ulp)
+			relEq := func(a, b float64) bool { return math.Abs(a-b) <= math.Abs(b)*0x1p-40 }
+			same := relEq(qd[k+1], d[5]) && relEq(qd[k+2], d[6]) && qd[k+3] == d[7]
 			lg, sw := qd[k+4] == 1 || qd[k+4] == 3, qd[k+4] == 2 || qd[k+4] == 3
 			ps = append(ps, fmt.Sprintf("(Corr.C09.mkAP %s %s %s %s %s 0)", b2s(same), b2s(lg), b2s(sw), pt(prev[0], prev[1]), pt(qd[k+5], qd[k+6])))
 			prev = [2]float64{qd[k+5], qd[k+6]}
